@@ -905,6 +905,44 @@ def crafted_cases():
 
 # ----------------------------------------------------------------------------------------------------
 
+def udf_files_case(ctx):
+    """Two materialisations in ONE process whose configurations name different UDF files defining the same function identifier
+    differently: every run must apply the function of ITS file (the UDF contract is per configuration, not per process)."""
+    import morph_kgc
+    d = os.path.join(ctx.tmp, 'udf_files')
+    os.makedirs(d, exist_ok=True)
+    with open(os.path.join(d, 'p.csv'), 'w') as f:
+        f.write('id,name\n1,ann\n2,bob\n')
+    mp = os.path.join(d, 'm.ttl')
+    with open(mp, 'w') as f:
+        f.write(f'''@prefix rml: <http://w3id.org/rml/> .
+<http://ex/TM> a rml:TriplesMap; rml:logicalSource [ rml:source "{os.path.join(d, 'p.csv')}"; rml:referenceFormulation rml:CSV ];
+  rml:subjectMap [ rml:template "http://ex/s/{{id}}" ];
+  rml:predicateObjectMap [ rml:predicate <http://ex/tag>; rml:objectMap [ rml:functionExecution <#Exec> ] ] .
+<#Exec> rml:function <http://ex.org/udf/tagit> ;
+  rml:input [ rml:parameter <http://ex.org/udf/px> ; rml:inputValueMap [ rml:reference "name" ] ] .
+''')
+    outs = {}
+    seq = ['A', 'B', 'A']
+    for k, tag in enumerate(seq):
+        up = os.path.join(d, f'udf_{tag}.py')
+        with open(up, 'w') as f:
+            f.write(f"@udf(fun_id='http://ex.org/udf/tagit', x='http://ex.org/udf/px')\ndef tagit(x):\n    return x + '-{tag}'\n")
+        cfg = f'[CONFIGURATION]\nnumber_of_processes=1\nlogging_level=CRITICAL\nudfs={up}\n[DS]\nmappings={mp}\n'
+        try:
+            outs[k] = {t.strip() for t in morph_kgc.materialize_set(cfg)}
+        except Exception as e:   # noqa: BLE001
+            outs[k] = {f'{type(e).__name__}: {str(e)[:200]}'}
+    inp = {'kind': 'udf-files', 'sequence': seq}
+    ctx.case(['udf-files'], nontrivial=True, kind='same function id in two UDF files, three runs in one process')
+    for k, tag in enumerate(seq):
+        want = {f'<http://ex/s/{i}> <http://ex/tag> "{n}-{tag}"' for i, n in (('1', 'ann'), ('2', 'bob'))}
+        if outs[k] != want:
+            ctx.violation(f'run {k + 1} of {seq} (udfs=udf_{tag}.py): the function of another run\'s UDF file was applied: got {sorted(outs[k])[:2]}, '
+                          f'expected {sorted(want)[:2]}', inp)
+            break
+
+
 def run(ctx, lean, findings):
     rng = ctx.rng
     drv = ctx.get_driver() if ctx.model_available else None
@@ -915,6 +953,7 @@ def run(ctx, lean, findings):
     open_ids = {f['id'] for f in findings if f.get('status') == 'open'}
     OPEN_IDS[0] = open_ids
     mult = 3 if ctx.escalate else 1
+    udf_files_case(ctx)
 
     # ---- the registry read by the translator is the registry the engine uses -----------------------
     from morph_kgc.fnml.built_in_functions import bif_dict
@@ -1048,4 +1087,8 @@ def replay_input(ctx, inp, d):
 
 
 def replay(ctx, data):
+    if data.get('input', {}).get('kind') == 'udf-files':
+        before = len(ctx.violations)
+        udf_files_case(ctx)
+        return len(ctx.violations) > before
     return replay_input(ctx, data['input'], os.path.join(ctx.tmp, 'rp'))
